@@ -56,20 +56,9 @@ def leafTok (s : String) : Option (Bytes × Bytes × Nat) :=
   | [a, b, v] => do pure (← fromHex? a, ← fromHex? b, ← v.toNat?)
   | _ => none
 
-def secp : GroupOps EC.Point := EC.ops EC.secp256k1
+def validKey (k : Bytes) : Bool := (secpParsePub k).isSome
 
-def parsePub (k : Bytes) : Option EC.Point :=
-  match Taproot.pointFromOctets secp k with
-  | .ok P => some P
-  | .error _ => none
-
-def validKey (k : Bytes) : Bool := (parsePub k).isSome
-
-def bip340 : Schnorr.Params :=
-  { pSize := 32, nSize := 32, nlen := 256, hfLen := 32, TH := taggedHash }
-
-def crypto : Crypto EC.Point :=
-  { o := secp, S := sha256, ripemd160 := ripemd160, sha1 := sha1, parsePub := parsePub, prm := bip340 }
+def crypto : Crypto EC.Point := secpCrypto
 
 def witTok (w : List Bytes) : String := if w.isEmpty then "." else "/".intercalate (w.map toHex)
 
